@@ -42,6 +42,13 @@ func (e *Exec) bigLoad(p Value) *BigV {
 	if !ok {
 		e.unsupported("big.Int model: unexpected representation %T", v)
 	}
+	if b.Poison {
+		if e.inInit {
+			e.poison = true
+		} else {
+			e.end(EndUnsupported, "use of a package-level big.Int whose value is outside the %d-bit model @ %s", BigW, e.stackString())
+		}
+	}
 	return b
 }
 
@@ -52,11 +59,22 @@ func (e *Exec) bigStore(p Value, t *sym.Term, nbits int) Value {
 	if nbits > BigW {
 		nbits = BigW
 	}
+	if e.poison {
+		e.poison = false
+		e.store(p.(*PtrV), &BigV{V: sym.BV(0, BigW), Bits: 1, Poison: true})
+		return p
+	}
 	e.store(p.(*PtrV), &BigV{V: t, Bits: nbits})
 	return p
 }
 
 func (e *Exec) bigOblige(c *sym.Term, what string) {
+	if e.inInit && c.IsConst() && c.Val == 0 {
+		// package initialisers may build constants beyond the model width (2^64-1, 1<<1000):
+		// they become poisoned values, harmless unless a path under test reads them
+		e.poison = true
+		return
+	}
 	if !e.branch(c) {
 		e.end(EndUnsupported, "big.Int model bound exceeded in %s @ %s", what, e.stackString())
 	}
@@ -65,6 +83,10 @@ func (e *Exec) bigOblige(c *sym.Term, what string) {
 func (e *Exec) newBig(t *sym.Term, nbits int) *PtrV {
 	if t.IsConst() {
 		nbits = bitsOfConst(t)
+	}
+	if e.poison {
+		e.poison = false
+		return &PtrV{Obj: e.newObj(&BigV{V: sym.BV(0, BigW), Bits: 1, Poison: true}, "big.Int (poisoned)")}
 	}
 	return &PtrV{Obj: e.newObj(&BigV{V: t, Bits: nbits}, "big.Int")}
 }
@@ -92,6 +114,10 @@ func (e *Exec) toBig(t *sym.Term, signed bool, what string) (*sym.Term, int) {
 	}
 	if t.IsConst() {
 		if back.Val != t.Val {
+			if e.inInit {
+				e.poison = true
+				return lo, BigW
+			}
 			e.end(EndUnsupported, "big.Int model bound exceeded in %s (constant %d) @ %s", what, t.Val, e.stackString())
 		}
 		return lo, BigW
